@@ -72,13 +72,13 @@ package markdown
 //@ ghost registered int
 //@ func markdownParse
 //@   requires c != nil
-//@   modifies ghost:parsedNow
+//@   modifies ghost:parsedNow, Config.Scripts, Config.Styles, Dispenser.cursor, Dispenser.nesting, MD:map[string]*github.com/tmpim/casket/caskethttp/markdown.cachedFileInfo, MD:map[string]struct{}, MV:map[string]*github.com/tmpim/casket/caskethttp/markdown.cachedFileInfo, MV:map[string]struct{}
 //@   ensures parsedNow == old(parsedNow) + 1
 //@ extern (*github.com/tmpim/casket/caskethttp/httpserver.SiteConfig).AddMiddleware
 //@   modifies ghost:registered
 //@   ensures registered == old(registered) + 1
 //@ func setup
 //@   requires c != nil && parsedNow == 0 && registered == 0
-//@   modifies ghost:parsedNow, ghost:registered
+//@   modifies ghost:parsedNow, ghost:registered, Config.Scripts, Config.Styles, Dispenser.cursor, Dispenser.nesting, MD:map[string]*github.com/tmpim/casket/caskethttp/markdown.cachedFileInfo, MD:map[string]struct{}, MV:map[string]*github.com/tmpim/casket/caskethttp/markdown.cachedFileInfo, MV:map[string]struct{}
 //@   at call (*github.com/tmpim/casket/caskethttp/httpserver.SiteConfig).AddMiddleware before [registered_after_this_runs_own_parse] parsedNow == 1
 //@   ensures [one_handler_on_success_none_on_error] parsedNow == 1 && (result == nil ==> registered == 1) && (result != nil ==> registered == 0)
